@@ -47,9 +47,7 @@ func endAll(w *sys.World, hp func(*sys.World) string) bool {
 			}
 		}
 		w.Flow(60, hp)
-		for _, t := range w.Cfg.Threads {
-			w.Step(sys.Stim{K: "point", T: t})
-		}
+		relAllGates(w)
 		w.Flow(60, hp)
 		done := true
 		for r := 1; r <= w.NRPC(); r++ {
@@ -81,8 +79,8 @@ func probe(w *sys.World, ts *tailState) string {
 	}
 	ts.mark(w, "probe")
 	ts.Notes["probeThread"] = t
-	for i := 0; i < 3; i++ {
-		w.Step(sys.Stim{K: "point", T: t}) // the probe itself is not held at an armed point
+	for i := 0; i < 4; i++ {
+		relAllGates(w) // neither the probe nor the handler is held at an armed point or inside a gated user function
 		w.Flow(80, hDefault)
 	}
 	s := w.Last().App[t]
@@ -148,9 +146,10 @@ func C06(c *vf.Ctx) {
 		cfgs: []sys.Config{
 			{Small: true, Soft: true, Threads: thr2},
 			{Small: false, Soft: true, Threads: thr2},
-			{Small: true, Soft: true, Points: []string{"conn.created"}, Threads: thr2},
+			{Small: true, Soft: true, Points: []string{"conn.created", "conn.meta.written"}, Threads: thr2},
 			{Small: true, Soft: false, Threads: thr2},
 		},
+		scen:    []string{"queued-call-cancelled", "metadata-then-abandoned", "undecodable-message"},
 		kinds:   []string{"start", "hstep", "relw", "deliver", "cancel", "point"},
 		weights: map[string]int{"invoke": 2, "newstream": 2, "op": 5, "hstep": 6, "relw": 8, "deliver": 8, "cancel": 2, "point": 3},
 		tail: func(w *sys.World, rng *rand.Rand, ts *tailState) {
@@ -205,7 +204,9 @@ func C04(c *vf.Ctx) {
 			{Small: true, Soft: true, Threads: thr3},
 			{Small: false, Soft: false, Threads: thr3},
 			{Small: false, Soft: true, Manual: true, Threads: thr3},
+			{Small: true, Soft: false, GateU: true, Threads: thr3},
 		},
+		scen:    []string{"queued-call-cancelled", "first-recv-flush-parked", "decoding-with-next-message-queued", "undecodable-message"},
 		kinds:   []string{"start", "hstep", "relw", "deliver"},
 		weights: map[string]int{"invoke": 2, "newstream": 3, "op": 8, "hstep": 5, "relw": 5, "deliver": 5},
 		tail: func(w *sys.World, rng *rand.Rand, ts *tailState) {
@@ -279,6 +280,13 @@ func C04(c *vf.Ctx) {
 			fmt.Sscan(ts.Notes["r"], &r)
 			o := v.r.Lines[at]
 			before := v.r.Lines[ts.Marks["before"]].Obs
+			for _, st := range o.Obs.App {
+				if st == "um" || st == "ma" {
+					// a goroutine of the application is inside its own Unmarshal/Error(), holding the buffer the library lent
+					// it: termination waits for that user code, so the calls cannot be judged before it returns
+					return probeFinding("C04", v, ts, res)
+				}
+			}
 			for _, op := range v.ops {
 				if op.R != r || op.Start > at || op.Kind == "ConnClose" {
 					continue
@@ -404,7 +412,9 @@ func C05(c *vf.Ctx) {
 			{Small: true, Threads: thr2},
 			{Small: false, Threads: thr2},
 			{Small: true, Soft: true, Threads: thr2},
+			{Small: true, GateU: true, Threads: thr2},
 		},
+		scen:    []string{"first-recv-flush-parked", "decoding-with-next-message-queued", "undecodable-message"},
 		kinds:   []string{"start", "hstep", "relw", "deliver"},
 		weights: map[string]int{"invoke": 2, "newstream": 3, "op": 7, "hstep": 6, "relw": 8, "deliver": 8},
 		tail: func(w *sys.World, rng *rand.Rand, ts *tailState) {
@@ -438,7 +448,10 @@ func C05(c *vf.Ctx) {
 			}
 			ts.mark(w, "fault")
 			ts.Notes["e"] = e
-			// the peer sees end-of-stream after the data already written; handler actions must fail, not hang
+			// the peer sees end-of-stream after the data already written; handler actions must fail, not hang;
+			// application code that was inside its own Unmarshal returns
+			relAllGates(w)
+			ts.mark(w, "fault")
 			w.Flow(60, nil)
 			for i := 0; i < 3 && strings.HasPrefix(w.Last().App["sv"], "h:"); i++ {
 				w.Step(sys.Stim{K: "hstep", A: []string{"recv", "send1", "retnil"}[i]})
@@ -534,8 +547,9 @@ func C12(c *vf.Ctx) {
 		cfgs: []sys.Config{
 			{Small: true, Threads: thr3},
 			{Small: false, Soft: true, Threads: thr3},
-			{Small: true, Soft: true, GateU: false, Threads: thr3},
+			{Small: true, Soft: true, GateU: true, Threads: thr3},
 		},
+		scen:    []string{"queued-call-cancelled", "first-recv-flush-parked", "decoding-with-next-message-queued", "undecodable-message"},
 		kinds:   []string{"start", "hstep", "relw", "deliver", "cancel"},
 		weights: map[string]int{"invoke": 2, "newstream": 3, "op": 7, "hstep": 6, "relw": 7, "deliver": 7, "cancel": 1},
 		tail: func(w *sys.World, rng *rand.Rand, ts *tailState) {
@@ -555,6 +569,14 @@ func C12(c *vf.Ctx) {
 				// a running handler is user code: let it return
 				for i := 0; i < 2 && strings.HasPrefix(w.Last().App["sv"], "h:"); i++ {
 					w.Step(sys.Stim{K: "hstep", A: "retnil"})
+				}
+			}
+			// code of the application that is inside its own Unmarshal / Error() returns, and so does a running handler
+			relAllGates(w)
+			if ts.Notes["side"] == "srv" {
+				for i := 0; i < 3 && strings.HasPrefix(w.Last().App["sv"], "h:"); i++ {
+					w.Step(sys.Stim{K: "hstep", A: "retnil"})
+					relAllGates(w)
 				}
 			}
 			ts.mark(w, "closed")
@@ -677,6 +699,7 @@ func C07(c *vf.Ctx) {
 			{Small: true, Soft: true, Points: []string{"manager.newstream.beforeset", "conn.created"}, Threads: thr3},
 			{Small: true, Soft: true, GateU: true, Threads: thr3},
 		},
+		scen:    []string{"queued-call-cancelled", "first-recv-flush-parked"},
 		kinds:   []string{"start", "hstep", "relw", "relwerr", "deliver", "cancel", "point", "relu"},
 		weights: map[string]int{"invoke": 3, "newstream": 3, "op": 10, "hstep": 5, "relw": 8, "deliver": 6, "cancel": 3, "point": 3, "relwerr": 1, "relu": 3},
 		tail: func(w *sys.World, rng *rand.Rand, ts *tailState) {
@@ -911,9 +934,10 @@ func C02(c *vf.Ctx) {
 		cfgs: []sys.Config{
 			{Small: true, Soft: true, Threads: thr3},
 			{Small: false, Soft: true, Threads: thr3},
-			{Small: true, Soft: true, Points: []string{"conn.created"}, Threads: thr3},
+			{Small: true, Soft: true, Points: []string{"conn.created", "conn.meta.written"}, Threads: thr3},
 			{Small: true, Soft: false, Threads: thr3},
 		},
+		scen:    []string{"invoke-overtaken-after-cancel", "metadata-then-abandoned", "queued-call-cancelled"},
 		kinds:   []string{"start", "hstep", "relw", "deliver", "cancel", "point"},
 		weights: map[string]int{"invoke": 5, "newstream": 3, "op": 6, "hstep": 8, "relw": 12, "deliver": 8, "cancel": 3, "point": 2},
 		tail: func(w *sys.World, rng *rand.Rand, ts *tailState) {
@@ -922,7 +946,7 @@ func C02(c *vf.Ctx) {
 			}
 			w.Flow(60, hDefault)
 		},
-		mons: []func(*runView) []finding{monWire, monDelivery, monIsolation},
+		mons: []func(*runView) []finding{monWire, monDelivery, monIsolation, monMetaAsC02},
 		own:  map[string]bool{"C02": true},
 		design: &designCheck{cfg: sys.Config{Small: false, Soft: true, Threads: []string{"c1"}}, kinds: []string{"start", "hstep", "relw", "deliver", "cancel"},
 			maxRPC: 2, maxStims: 5, invs: "TypeOK StreamInvs OneWrite"},
@@ -933,8 +957,29 @@ func C02(c *vf.Ctx) {
 	c.Cov["rule"] = "sequences of up to four RPCs (unary and streaming, three goroutines calling concurrently) on one connection, each cancelled (soft or hard), closed or failed by either side at arbitrary points, with the leftover packets delivered arbitrarily late relative to the start of later RPCs (deliveries are separate stimuli; armed point between stream creation and the invoke write). Monitors: every message, reply and error observed by RPC r carries r's own stream identity; stream ids on the wire strictly increase. Every run validated against SystemTrace.tla."
 }
 
+// monMetaAsC02: metadata of one call showing up in another call's handler is also a breach of isolation
+func monMetaAsC02(v *runView) (out []finding) {
+	for _, f := range monMetaStrict(v) {
+		f.Prop = "C02"
+		out = append(out, f)
+	}
+	return
+}
+
 // monIsolation: errors and replies are observed only by the RPC they belong to.
 func monIsolation(v *runView) (out []finding) {
+	// what a call puts on the wire under stream id s is that call's own data: request and message tags name their rpc
+	for _, f := range v.wire["cli"] {
+		if f.Kind != "Message" && f.Kind != "Invoke" {
+			continue
+		}
+		var r int
+		if n, _ := fmt.Sscanf(f.Tag, "%d.", &r); n == 1 && r > 0 {
+			if owner, ok := v.sidRPC[f.Sid]; ok && owner != r {
+				out = append(out, finding{"C02", "data of one call was sent on the stream of another call", f.Line, map[string]any{"frame": f, "data_of_rpc": r, "stream_of_rpc": owner}})
+			}
+		}
+	}
 	for _, o := range v.ops {
 		sid := v.rpcSid[o.R]
 		if strings.HasPrefix(o.Res, "remote:e") {
